@@ -68,10 +68,11 @@ Next == SendPing \/ RecvPong \/ Timeout \/ Tick
 Spec == Init /\ [][Next]_vars
 
 (* a client that answers every PING in time is never disconnected *)
-LiveKept == (pat \in {"always", "late1", "late2"} /\ Delay(pat) < pong /\ Delay(pat) < ping) => ~dropped
+(* (also when the answer takes longer than ping_timeout: what counts is pong_timeout) *)
+LiveKept == (pat \in {"always", "late1", "late2"} /\ Delay(pat) < pong) => ~dropped
 (* a client that stops answering is disconnected no later than pong_timeout after the first PING it failed to answer *)
 DeadDropped == (firstUnanswered # 0 /\ now > firstUnanswered + pong) => dropped
-DropNotEarly == dropped => (firstUnanswered # 0 \/ Delay(pat) >= pong \/ Delay(pat) >= ping) 
+DropNotEarly == dropped => (firstUnanswered # 0 \/ Delay(pat) >= pong)
 DropOnTime == (dropped /\ firstUnanswered # 0) => dropTime <= firstUnanswered + pong
 
 =============================================================================
